@@ -156,6 +156,20 @@ def evaluate(run, cases, exe, drv):
                     run.count('agreement-skipped-logical-content')
                 else:
                     run.fail('decoders-disagree', 'generic decoder %s, schema-aware deserializer ok' % show(dec)[:80], case)
+        # a target that ignores everything (IgnoredAny) must still see a complete datum: whenever it
+        # succeeds the generic decoder succeeds and both consumed the same bytes
+        ign = o[7] if len(o) > 7 else None
+        if ign is not None:
+            run.count('ignored:' + str(tag(ign)))
+            if tag(ign) == 'panic':
+                run.fail('panic', 'deserializing into IgnoredAny panicked', case)
+            elif tag(ign) == 'ok' and tag(dec) != 'ok':
+                if '"uuid"' in st or 'big-decimal' in st or 'decimal' in st:
+                    run.count('agreement-skipped-logical-content')
+                else:
+                    run.fail('ignoring-deserializer-accepts-incomplete-datum', 'generic decoder %s, deserializing into IgnoredAny ok' % show(dec)[:60], case)
+            elif tag(ign) == 'ok' and ign[1] != dec[2]:
+                run.fail('decoders-consume-differently', 'generic left %s, IgnoredAny deserializer left %s' % (dec[2][:40], ign[1][:40]), case)
         # correspondence
         m = parse(model.get(cid, '(missing)'))
         if tag(m) != tag(dec) or (tag(m) == 'ok' and (canon(m[1], True) != canon(dec[1], True) or m[2] != dec[2])):
